@@ -225,7 +225,15 @@ class Scatterer(HoloPyObject):
 
 class CenteredScatterer(Scatterer):
     def __init__(self, center=None):
-        if center is not None and (np.isscalar(center) or len(center) != 3):
+        bad = center is not None and (np.isscalar(center) or len(center) != 3)
+        if center is not None and not bad:
+            try:
+                # three numbers, not three lists of numbers
+                bad = np.shape(np.asarray(center, dtype=float)) != (3,)
+            except (TypeError, ValueError):
+                # priors or per-channel values are not checked further
+                pass
+        if bad:
             msg = ("center specified as {0}, "
                    "center should be specified as (x, y, z)".format(center))
             raise InvalidScatterer(self, msg)
